@@ -57,14 +57,26 @@ def startAttrs (cfg : Cfg) (st : Bool) : TEvent → List Message
   | .start _ a => extractAttrs cfg st a
   | _ => []
 
+/-- `Translator._extract_code(event, gettext_functions)` for an EXPR event (as repaired: the
+    directive `extract` methods report the gettext calls of the expressions they buffer) -/
+def exprCode : TEvent → List Message
+  | .expr _ cm => codeMessages cm
+  | _ => []
+
+/-- what the loops of the directive `extract` methods report for one buffered event -/
+def evMessages (cfg : Cfg) (st : Bool) : TEvent → List Message
+  | .start _ a => extractAttrs cfg st a
+  | .expr _ cm => codeMessages cm
+  | _ => []
+
 /-- the common loop of the directive `extract` methods: every event is appended to the
-    buffer(s); the attributes of START events are extracted first -/
+    buffer(s); the attributes of START events and the code of EXPR events are extracted first -/
 def appendAll (cfg : Cfg) (st : Bool) (b : MB) : List TEvent → Except Err (List Message × MB)
   | [] => pure ([], b)
   | e :: es => do
       let b' ← mbAppend b e
       let (ms, b'') ← appendAll cfg st b' es
-      pure (startAttrs cfg st e ++ ms, b'')
+      pure (evMessages cfg st e ++ ms, b'')
 
 /-- `MsgDirective.extract` (as repaired) -/
 def msgExtract (cfg : Cfg) (params : List Str) (st : Bool) (cs xs : List Str) (s : List TEvent) :
@@ -84,7 +96,7 @@ def msgExtract (cfg : Cfg) (params : List Str) (st : Bool) (cs xs : List Str) (s
         let (ms, b) ← appendAll cfg st (MB.new params) (first :: rest).dropLast
         let b' ← mbAppend b ((first :: rest).getLast?.getD first)
         match contextify none (.one (some b'.format)) (lastSlice cs) (lastSlice xs) with
-        | some m => pure (ms ++ [m])
+        | some m => pure (ms ++ exprCode ((first :: rest).getLast?.getD first) ++ [m])
         | none => .error .keyError
 
 /-- `ChooseBranchDirective.extract(..., msgbuf)`: returns the attribute messages and the buffer -/
@@ -98,7 +110,7 @@ def branchExtract (cfg : Cfg) (st : Bool) (b : MB) (s : List TEvent) : Except Er
         | some last => do
             let (ms, b1) ← appendAll cfg st b evs.dropLast
             let b2 ← if last.isEnd then pure b1 else mbAppend b1 last
-            pure (pre ++ ms, b2)
+            pure (pre ++ ms ++ exprCode last, b2)
       if first.isStart then go (startAttrs cfg st first) rest else go [] (first :: rest)
 
 /-- one step of the loop of `ChooseDirective.extract` for the event `previous` -/
@@ -124,7 +136,7 @@ def chooseStep (cfg : Cfg) (st : Bool) (sb pb : MB) : TEvent → Except Err (Lis
   | e => do
       let sb' ← mbAppend sb e
       let pb' ← mbAppend pb e
-      pure (startAttrs cfg st e, sb', pb')
+      pure (evMessages cfg st e, sb', pb')
 
 def chooseLoop (cfg : Cfg) (st : Bool) (sb pb : MB) : List TEvent → Except Err (List Message × MB × MB)
   | [] => pure ([], sb, pb)
@@ -155,7 +167,7 @@ def chooseExtract (cfg : Cfg) (params : List Str) (st : Bool) (cs xs : List Str)
         -- `if not strip:` the last event is appended as it is, whatever it is
         let sb' ← mbAppend sb last
         let pb' ← mbAppend pb last
-        finish ms sb' pb'
+        finish (ms ++ exprCode last) sb' pb'
 
 /-- state of the first loop over the directives of a SUB event in `Translator.extract` -/
 structure SubLoop where
